@@ -44,9 +44,11 @@ def _mutations_of(m):
     return [k for k, (mod, _c) in L.MUTATIONS.items() if mod == m]
 
 
-def _step_evaluations():
+def _step_evaluations(modules=None):
     out = []
     for m, (_mod, _fn, g) in L.PRIVATE_MODULES.items():
+        if modules and m not in modules:
+            continue
         pubs = ["pending", "loaded"] if g in L.GROUPS else ["loaded"]
         for pub in pubs:
             out.append((m, pub, "uninit", "create_only"))
@@ -193,7 +195,8 @@ def _run_steps(evaluations, canon):
 def task_steps(tier, seed, arg):
     t0 = time.time()
     canon = L.canonical()
-    evaluations = _step_evaluations()
+    # arg {"modules": [...]} restricts the step obligations to the private-table init of some data modules
+    evaluations = _step_evaluations((arg or {}).get("modules") if isinstance(arg, dict) else None)
     results = _run_steps(evaluations, canon)
     outs = dict((e, _step_outcome(e, r, canon)) for e, r in zip(evaluations, results))
     violations, notes, samples = [], [], []
